@@ -310,7 +310,11 @@ def c06_r2(ctx):
            "commit publishes the policy's kept segments plus the new segment")
     mg = prog.method("writing.SegmentWriter", "_merge_segments", inherited=False)
     rets = [norm.canon(r.value) for r in returns_of(mg)]
-    ctx.ob(mg, rets == ["mergetype(self, self.segments)"], "the policy is applied to this writer and its segment list", detail=str(rets))
+    # whichever way the policy was chosen (a re-bound parameter, a local, a helper's result): what matters is what it is applied to
+    applied = [r.value for r in returns_of(mg)]
+    ctx.ob(mg, bool(applied) and all(isinstance(v, ast.Call) and not v.keywords and [norm.canon(a) for a in v.args] == ["self", "self.segments"]
+                                     and isinstance(v.func, ast.Name) for v in applied),
+           "the policy is applied to this writer and its segment list", detail=str(rets))
 
 
 @rule("C06", "R3", "K4", "every multi-segment view numbers documents by the same recurrence over ALL documents",
